@@ -305,6 +305,12 @@ def run(ctx):
     from .c03 import rule_ambiguity_guard, spec_tables
     rule_ambiguity_guard(ctx, idx, mir, spec_tables(), rid="R15.5")
 
+    # ------------------------------------------------------------------ R15.7 (shared with C14 R14.4 / C02 R02.2)
+    # a range that is not re-based points past the new buffer: slicing clamps, but `end - start` style arithmetic and
+    # debug assertions on ranges do not
+    from .c14 import rule_align_complete
+    rule_align_complete(ctx, mir, rid="R15.7")
+
     # ------------------------------------------------------------------ R15.6 (shared with C13 R13.1)
     r = ctx.rule("R15.6", "a non-ASCII-compatible encoding can never be installed (it trips debug assertions in the decoder / encoder): constructor discipline of AsciiCompatibleEncoding", "E-MIR", floor=2)
     from .c13 import clause_ascii_compatible_ctor
